@@ -3,7 +3,7 @@
    JSON is an oracle: [encode]/[decode] are universally quantified and constrained by
    the named laws [roundtrip], [prefix_safe], [empty_invalid]. *)
 From Coq Require Import ZArith List Bool.
-From V Require Import Bytes StrGo Route RouteProofs C18Users C18Tables C18CrashFs C18TableProofs C18CrashProofs.
+From V Require Import Bytes StrGo Route RouteProofs C18Users C18Tables C18CrashFs C18TableProofs C18CrashProofs C18EndToEnd.
 Import ListNotations.
 Open Scope Z_scope.
 
@@ -93,6 +93,26 @@ Theorem C18_crash_leaves_others : forall tgt tmp s d i k s' q,
   q <> tgt -> q <> tmp -> In (i, k, s') (crash_states s (safe_flush tgt tmp d)) -> s' q = s q.
 Proof. exact crash_leaves_others. Qed.
 Print Assumptions C18_crash_leaves_others.
+
+(* manager, file system and restart together: the process dies anywhere in manager.Flush (JSON provider,
+   repaired writer); the restarted server starts, with the table a restart would have had before the
+   flush or with exactly the table that was being flushed *)
+Theorem C18_crash_restart_table : forall (E X : Type) (M : tops E X) (encode : list E -> bytes) decode tgt tmp,
+  tmp <> tgt -> roundtrip encode decode ->
+  forall (st : mstate E) d s,
+  Forall (stable M) (m_tab st) -> fs_holds M decode tgt s d ->
+  forall i k s', In (i, k, s') (crash_states s (flush_ops encode tgt tmp st)) ->
+  restart_table M decode tgt s' = Some (load M d) \/ restart_table M decode tgt s' = Some (m_tab st).
+Proof. exact (@crash_restart_table). Qed.
+Print Assumptions C18_crash_restart_table.
+
+(* ... and when it does not die, the file system holds what the table-level model says the disk holds *)
+Theorem C18_flush_completed_holds : forall (E X : Type) (M : tops E X) (encode : list E -> bytes) decode tgt tmp,
+  tmp <> tgt -> roundtrip encode decode ->
+  forall (st : mstate E) d s,
+  fs_holds M decode tgt s d -> fs_holds M decode tgt (run s (flush_ops encode tgt tmp st)) (snd (do_flush st d)).
+Proof. exact (@flush_completed_holds). Qed.
+Print Assumptions C18_flush_completed_holds.
 
 (* ---- D32: the sequence used before the repair (OpenFile(O_TRUNC), write, sync) ---- *)
 Theorem C18_crash_after_truncate_refuted : forall (T : Type) (encode : T -> bytes) (decode : bytes -> option T) (dflt : T) tgt,
